@@ -130,8 +130,8 @@ func (c *pipeConn) Close() error {
 // Moved reports the total number of bytes written by this end.
 func (c *pipeConn) Moved() int64 { c.w.mu.Lock(); defer c.w.mu.Unlock(); return c.w.moved }
 
-func (c *pipeConn) LocalAddr() net.Addr                { return pipeAddr(c.name) }
-func (c *pipeConn) RemoteAddr() net.Addr               { return pipeAddr(c.name + "-peer") }
+func (c *pipeConn) LocalAddr() net.Addr              { return pipeAddr(c.name) }
+func (c *pipeConn) RemoteAddr() net.Addr             { return pipeAddr(c.name + "-peer") }
 func (c *pipeConn) SetDeadline(time.Time) error      { return nil }
 func (c *pipeConn) SetReadDeadline(time.Time) error  { return nil }
 func (c *pipeConn) SetWriteDeadline(time.Time) error { return nil }
